@@ -1,6 +1,8 @@
 """C20 - objects are independent and inputs are never mutated."""
 from . import fresh, routes, funcs, pipeline
 
+from . import routes, fresh, flags, sizes, conv, dtype, carriers, funcs, ops, strings, pipeline, widths
+
 EXPLANATION = (
     "R1 every deriving route the statement lists (unary, shifts, bitwise, like, deepcopy, function wrappers) returns an object created by the constructor "
     "or from a deep copy - no Fxp.copy()/copy.copy on the way; indexing assigns the bare view self.val[index] (the documented exception); R2 the constructor "
@@ -24,3 +26,4 @@ def run(ck):
     fresh.config_validation(ck, "C20.R6")
     funcs.results_through_funnel(ck, "C02.R7")
     pipeline.store_pipeline(ck, "C01.R2", want_bounds=False)
+    fresh.no_class_state_writes(ck, "C20.R7")
